@@ -43,7 +43,7 @@ theorem C03_snapshot (c : MvccCfg) (hc : c.SnapGood) (fp : Key → Nat) (s : St)
         ∀ e', Committed s.log e' → e'.key = k → e'.ts ≤ t.readTs → e'.ts ≤ e.ts) ∧
     (bestOf s.store k t.readTs = none → ∀ e', Committed s.log e' → ¬ (e'.key = k ∧ e'.ts ≤ t.readTs)) ∧
     t.readTs < s.nextTs := by
-  have hA := Reach_InvA hs
+  have hA := Reach_InvA hc.2 hs
   have hB := Reach_InvB hc hs
   obtain ⟨hg, hd⟩ := hl
   refine ⟨?_, ?_, ?_, hB.readLt id t ⟨hg, hd⟩⟩
@@ -60,17 +60,18 @@ theorem C03_snapshot (c : MvccCfg) (hc : c.SnapGood) (fp : Key → Nat) (s : St)
   · intro hn e' he'
     exact bestOf_none hn e' ((hA.storeLog e').mpr he')
 
-/-- **The snapshot never changes.**  Whatever calls follow (of this or any other transaction),
-a read at any timestamp below the current `nextTs` — in particular at the read timestamp of any
-transaction live now — returns the same value as now: every later commit gets a version `≥ nextTs`. -/
+/-- **The snapshot never changes.**  Whatever calls follow (of this or any other transaction;
+no reopen — a reopen ends every transaction of the old instance), a read at any timestamp below
+the current `nextTs` — in particular at the read timestamp of any transaction live now — returns
+the same value as now: every later commit gets a version `≥ nextTs`. -/
 theorem C03_snapshot_stable (c : MvccCfg) (hc : c.SnapGood) (fp : Key → Nat) (s : St) (hs : Reach c fp s)
-    (ops : List Op) (k : Key) :
+    (ops : List Op) (hno : Op.reopen ∉ ops) (k : Key) :
     (∀ r, r < s.nextTs → readAt (run c fp s ops).store k r = readAt s.store k r) ∧
     (∀ id t, Live s id t → readAt (run c fp s ops).store k t.readTs = readAt s.store k t.readTs) := by
-  have hA := Reach_InvA hs
+  have hA := Reach_InvA hc.2 hs
   have hB := Reach_InvB hc hs
-  exact ⟨fun r hr => readAt_stable c fp ops s hA k r hr,
-    fun id t hl => readAt_stable c fp ops s hA k t.readTs (hB.readLt id t hl)⟩
+  exact ⟨fun r hr => readAt_stable c hc.2 fp ops hno s hA k r hr,
+    fun id t hl => readAt_stable c hc.2 fp ops hno s hA k t.readTs (hB.readLt id t hl)⟩
 
 /-- **The snapshot is complete.**  A transaction begun now reads at `nextTs - 1`, which is at or
 above the version of every commit that has answered `ok` so far. -/
@@ -79,7 +80,8 @@ theorem C03_snapshot_complete (c : MvccCfg) (hc : c.SnapGood) (fp : Key → Nat)
     (step c fp s (.begin id upd)).2 = .okTs (s.nextTs - 1) ∧
     (∃ t, Live (step c fp s (.begin id upd)).1 id t ∧ t.readTs = s.nextTs - 1) ∧
     ∀ cm ∈ s.log, cm.ts ≤ s.nextTs - 1 := by
-  unfold MvccCfg.SnapGood at hc
+  have hseed := hc.2
+  replace hc := hc.1
   refine ⟨by simp [step, beginTxn, hc], ?_, ?_⟩
   · refine ⟨{ update := upd, readTs := s.nextTs - c.readTsOff, reads := [], ckeys := [], writes := [], count := 1,
                size := 0, discarded := false, doneRead := false, tag := s.nextTag, rkeys := [], rlog := [] },
@@ -87,7 +89,7 @@ theorem C03_snapshot_complete (c : MvccCfg) (hc : c.SnapGood) (fp : Key → Nat)
     · simp only [step, beginTxn]; rw [getTxn_putTxn]; simp
     · simp [hc]
   · intro cm hcm
-    have := (Reach_InvA hs).logLt cm hcm
+    have := (Reach_InvA hseed hs).logLt cm hcm
     omega
 
 /-- the conflict obligation of C03 for a configuration -/
@@ -104,7 +106,7 @@ read from the store, then `Commit T` answers `conflict`. -/
 theorem C03_conflict (c : MvccCfg) (hc : c.ConfGood) : ConflictDetected c := by
   intro fp s hs id t hl hw cm hcm hts k hk ⟨v, hv⟩
   have hI := Reach_InvC hc hs
-  obtain ⟨⟨_, _, hchk, hskip, _, _⟩, _, _⟩ := hc
+  obtain ⟨⟨_, _, hchk, hskip, _, _, hfin, _⟩, _, _⟩ := hc
   have hheld := hI.wm.held _ (hI.held id t hl)
   have hcl := hI.cleanLe
   obtain ⟨fps, hmem, hfp⟩ := hI.hist cm hcm (by simp only at hheld; omega)
@@ -112,7 +114,7 @@ theorem C03_conflict (c : MvccCfg) (hc : c.ConfGood) : ConflictDetected c := by
   have hconf : hasConflict c s t = true := by
     unfold hasConflict
     have hne : t.reads ≠ [] := by intro h; rw [h] at hr; cases hr
-    simp only [hne, if_false, Bool.or_eq_true]
+    simp only [hne, if_false, Bool.or_eq_true, hfin, Bool.not_false, Bool.true_and]
     right
     rw [List.any_eq_true]
     refine ⟨(cm.ts, fps), hmem, ?_⟩
@@ -135,11 +137,11 @@ theorem C03_conflict_partial (c : MvccCfg) (hc : c.DetectGood) (fp : Key → Nat
     (ts : Nat) (fps : List Nat) (hmem : (ts, fps) ∈ s.committed) (hts : t.readTs < ts)
     (r : Nat) (hr : r ∈ t.reads) (hrf : r ∈ fps) :
     (step c fp s (.commit id)).2 = .conflict := by
-  obtain ⟨_, _, hchk, hskip, _, _⟩ := hc
+  obtain ⟨_, _, hchk, hskip, _, _, hfin, _⟩ := hc
   have hconf : hasConflict c s t = true := by
     unfold hasConflict
     have hne : t.reads ≠ [] := by intro h; rw [h] at hr; cases hr
-    simp only [hne, if_false, Bool.or_eq_true]
+    simp only [hne, if_false, Bool.or_eq_true, hfin, Bool.not_false, Bool.true_and]
     right
     rw [List.any_eq_true]
     refine ⟨(ts, fps), hmem, ?_⟩
@@ -151,6 +153,32 @@ theorem C03_conflict_partial (c : MvccCfg) (hc : c.DetectGood) (fp : Key → Nat
       exact ⟨r, hr, by simpa using hrf⟩
   obtain ⟨hg, hd⟩ := hl
   simp [step, hg, commitTxn, hd, hw, hchk, hconf]
+
+/-- **Iterator reads are in the read set.**  With `advance` recording every returned item: after
+a forward scan of a live update transaction every key the scan returned is among the keys the
+conflict theorem speaks about (`rkeys`), so `C03_conflict` covers keys read through an iterator
+exactly as keys read through `Get`. -/
+theorem C03_scan_tracked (c : MvccCfg) (hc : c.scanTrackAll = true) (fp : Key → Nat) (s : St)
+    (id : Nat) (t : Txn) (hl : Live s id t) (hu : t.update = true) (hcl : s.closed = false)
+    (t' : Txn) (ht' : getTxn (step c fp s (.scan id)).1 id = some t') :
+    (∀ items, (step c fp s (.scan id)).2 = .scanned items → ∀ p ∈ items, p.1 ∈ t'.rkeys) ∧
+    (∀ k ∈ t.rkeys, k ∈ t'.rkeys) ∧ t'.readTs = t.readTs ∧ t'.writes = t.writes ∧ t'.discarded = false := by
+  obtain ⟨hg, hd⟩ := hl
+  have hstep : step c fp s (.scan id) = scanTxn c fp s id t := by simp [step, hg, hd, hcl]
+  rw [hstep] at ht' ⊢
+  simp only [scanTxn] at ht' ⊢
+  rw [if_pos hu] at ht'
+  rw [getTxn_putTxn] at ht'
+  simp only [if_true, Option.some.injEq] at ht'
+  subst ht'
+  refine ⟨?_, ?_, rfl, rfl, hd⟩
+  · intro items hit p hp
+    simp only [Out.scanned.injEq] at hit
+    subst hit
+    obtain ⟨it, hit, rfl⟩ := List.mem_map.mp hp
+    refine List.mem_append_left _ (List.mem_map.mpr ⟨it, ?_, rfl⟩)
+    exact List.mem_filter.mpr ⟨hit, by simp [hc]⟩
+  · intro k hk; exact List.mem_append_right _ hk
 
 theorem bestOf_no_between (st : List Entry) (k : Key) (lo hi : Nat) (hle : lo ≤ hi)
     (h : ∀ e ∈ st, e.key = k → e.ts ≤ lo ∨ hi < e.ts) : bestOf st k hi = bestOf st k lo := by
@@ -193,7 +221,7 @@ theorem C03_serializable_partial (c : MvccCfg) (hc : c.ConfGood) (fp : Key → N
   by_cases hle : e.ts ≤ t.readTs
   · exact Or.inl hle
   · exfalso
-    obtain ⟨cm, hcm, hts, hmem⟩ := ((Reach_InvA hs).storeLog e).mp he
+    obtain ⟨cm, hcm, hts, hmem⟩ := ((Reach_InvA hc.1.2.2.2.2.2.2.2 hs).storeLog e).mp he
     exact hno cm hcm (by omega) k hk ⟨e.val, by rw [← hek]; exact hmem⟩
 
 -- ---------------------------------------------------------------- the as-is tree
